@@ -698,6 +698,21 @@ def std_summaries():
     P[r'<(?:Vec<.*>|std::ops::Range<usize>|std::vec::IntoIter<.*>|std::slice::Iter(?:Mut)?<.*>|Enumerate<.*>|Rev<.*>|Skip<.*>|\[.*; \d+\]) as IntoIterator>::into_iter'] = into_iter_owned
     P[r'<(?:std::slice::Iter(?:Mut)?<.*>|std::ops::Range<usize>|std::vec::IntoIter<.*>|Enumerate<.*>|Rev<.*>|Skip<.*>|std::array::IntoIter<.*>) as Iterator>::next'] = it_next
     P[r'<.* as DoubleEndedIterator>::next_back'] = it_next_back
+    # Option as a 0 / 1 element iterator, chained iterators (both plain element lists)
+    def opt_into_iter(se, env, pc, o):
+        o = se.deref(env, o) if isinstance(o, Ref) else o
+        if not isinstance(o, Enum) or o.tag not in ('Some', 'None'): raise Inconclusive('into_iter over %r' % (o,))
+        return one(env, {'it': [o.fields[0]] if o.tag == 'Some' else []})
+    P[r'<Option<.*> as IntoIterator>::into_iter'] = opt_into_iter
+    P[r'Option::<.*>::iter|Option::iter'] = opt_into_iter
+    def it_chain(se, env, pc, a, b):
+        if isinstance(b, Enum) and b.tag in ('Some', 'None'): b = {'it': [b.fields[0]] if b.tag == 'Some' else []}
+        if isinstance(b, list): b = {'it': list(b)}
+        if not (isinstance(a, dict) and 'it' in a and isinstance(b, dict) and 'it' in b) or a.get('maps') or b.get('maps'): raise Inconclusive('chain of %r and %r' % (a, b))
+        return one(env, {'it': list(a['it']) + list(b['it'])})
+    P[r'<.* as Iterator>::chain'] = it_chain
+    P[r'<(?:std::iter::)?Chain<.*> as IntoIterator>::into_iter'] = into_iter_owned
+    P[r'<(?:(?:std::iter::)?Chain<.*>|std::option::IntoIter<.*>|std::option::Iter<.*>) as Iterator>::next'] = it_next
     P[r'<.* as Iterator>::rev'] = it_rev
     P[r'<.* as Iterator>::enumerate'] = it_enumerate
     P[r'<.* as Iterator>::skip'] = it_skip
